@@ -129,6 +129,7 @@ func genConfig(rng *simcore.RNG, env *simcore.Env) simcore.Op {
 	c["tamper"] = tk
 	c["tamper_pm"] = []int{30, 80, 200}[rng.Intn(3)] // per mille of data-phase ops
 	c["close"] = rng.Bool(0.2)
+	c["wfail"] = rng.Bool(0.35) // the underlying conn.Write fails after k bytes of a sealed frame, the application writes on
 	// transport-level family: MultiplexTransport.upgrade on both ends
 	c["mode"] = "sc"
 	if rng.Bool(0.22) {
@@ -178,6 +179,11 @@ type end struct {
 	// writer-side unit parser
 	pend    []byte
 	unitIdx int
+	// armed write fault: after failSkip more frames the next conn.Write of the data phase puts
+	// failK bytes of the sealed frame on the wire and returns os.ErrDeadlineExceeded
+	failArmed bool
+	failSkip  int
+	failK     int
 	// deadline on the bubble's fake clock (mode upgrade)
 	dlTimer  *time.Timer
 	dlGen    int
@@ -290,6 +296,22 @@ func (e *end) Write(p []byte) (int, error) {
 		s.mu.Unlock()
 		return 0, errTimeout
 	}
+	if e.failArmed && e.unitIdx >= 2 && len(e.pend) == 0 && len(p) > 0 {
+		if e.failSkip > 0 {
+			e.failSkip--
+		} else {
+			e.failArmed = false
+			k := e.failK % len(p)
+			if k > len(p)-8 && len(p) > 8 {
+				// with all but the last few tag bytes out, whatever follows on the wire completes
+				// the frame with probability 256^-missing: not reproducible
+				k = len(p) - 8
+			}
+			s.partialWrite(e, p[:k])
+			s.mu.Unlock()
+			return k, os.ErrDeadlineExceeded
+		}
+	}
 	if s.canAccept(e) {
 		s.sink(e, p)
 		s.mu.Unlock()
@@ -369,6 +391,8 @@ type stream struct {
 	finQueued bool
 	eofDeliv  bool
 	cut       bool // the MITM cut the stream: later writes vanish
+	wbroken   bool // a conn.Write of the writer failed mid-frame: nothing behind it can be accepted any more
+	ignore    bool // ... and nothing of that frame reached the wire: the reader is not judged any more (see partialWrite)
 	ctSeen    map[[32]byte]int
 	ksSeen    map[[16]byte]int
 }
@@ -409,6 +433,8 @@ type side struct {
 	out     []byte     // plaintext written by this side (evil topology: checked by the evil endpoint)
 	outCh   []int      // chunk model for out
 	evil    *evilEnd   // evil topology: the attacker this side talks to
+	wq       [][]byte // known plaintext prefix (4-byte length || chunk) of the data frames this side is about to seal, in order
+	injected bool     // the current Write call hit an injected conn.Write failure
 	// mode upgrade
 	mt     *p2p.MultiplexTransport
 	info   p2p.DefaultNodeInfo // what this side's transport reports about itself
@@ -434,6 +460,9 @@ type sim struct {
 	dead      bool
 	tamperSet map[string]bool
 	notes     int
+	wfails    int
+	wire      map[[32]byte]int // wire observer: first 32 key-stream bytes of every frame (whole or partial) seen so far
+	wireN     int
 	upgrade   bool
 	up        string
 	slept     time.Duration // mode upgrade: fake time the simulator let pass
@@ -459,6 +488,7 @@ func newSim(env *simcore.Env, cfg simcore.Op) simcore.Sim {
 	s.evilTopo = isEvil(cfg.Str("hs"))
 	s.privM = keyFrom("M", cfg.Int("keyM"))
 	ct, ks := map[[32]byte]int{}, map[[16]byte]int{}
+	s.wire = map[[32]byte]int{}
 	for i := 0; i < 2; i++ {
 		s.st[i] = &stream{ctSeen: ct, ksSeen: ks} // shared: no two frames of a session, in either direction, may share key and nonce
 	}
@@ -576,17 +606,80 @@ func (s *sim) onUnit(w, idx int, u []byte) {
 	if len(sd.sent) < 8 {
 		sd.sent = append(sd.sent, u)
 	}
+	if idx >= 2 && len(sd.wq) > 0 {
+		s.wireWatch(w, u, sd.wq[0])
+		sd.wq = sd.wq[1:]
+	}
 	if s.evilTopo {
 		sd.evil.inbox = append(sd.evil.inbox, u)
 		return
 	}
 	st := s.st[1-w]
+	if st.wbroken {
+		// behind a frame that was lost mid-write: cannot be accepted by the reader any more
+		st.gen = idx + 1
+		if !st.cut && !st.finQueued {
+			st.q = append(st.q, &qent{b: u, orig: -1})
+		}
+		return
+	}
 	s.nonceWatch(st, &st.plain, st.chunks, idx, u)
 	st.gen = idx + 1
 	if st.cut || st.finQueued {
 		return
 	}
 	st.q = append(st.q, &qent{b: u, orig: idx})
+}
+
+// partialWrite: an armed write fault fired. k = len(part) bytes of the sealed frame reached the
+// wire (the man in the middle, like any wire observer, has them), the writer's conn.Write
+// returns an error. Caller holds mu.
+func (s *sim) partialWrite(e *end, part []byte) {
+	sd := s.sd[e.id]
+	sd.injected = true
+	s.env.Count("fault.write_error_mid_frame")
+	if len(sd.wq) > 0 {
+		s.wireWatch(e.id, part, sd.wq[0])
+		sd.wq = sd.wq[1:]
+	}
+	if s.evilTopo {
+		return
+	}
+	st := s.st[1-e.id]
+	st.wbroken, st.tampered = true, true
+	if len(part) == 0 {
+		// Nothing of the frame left the writer. Whether the reader can go on (the writer re-used
+		// the counter for the next frame) or not (it moved on) says nothing about C16: the lost
+		// chunk was reported as not written. The reader of this direction is not judged further.
+		st.ignore = true
+		return
+	}
+	if !st.cut && !st.finQueued {
+		st.q = append(st.q, &qent{b: append([]byte{}, part...), orig: -1})
+	}
+}
+
+// wireWatch is the wire observer's test for key-stream reuse: for every pair of sealed frames
+// (whole or partial) one session put on the wire, c1 xor c2 must not equal p1 xor p2 over the
+// plaintext the observer could know (4-byte length || chunk; the padding is not known). Done
+// with a table of the first 32 key-stream bytes c xor p of every frame.
+func (s *sim) wireWatch(w int, ct, plain []byte) {
+	n := len(ct)
+	if len(plain) < n {
+		n = len(plain)
+	}
+	s.wireN++
+	if n < 32 || !s.env.Checking("C16") {
+		return
+	}
+	var ks [32]byte
+	for i := range ks {
+		ks[i] = ct[i] ^ plain[i]
+	}
+	if prev, ok := s.wire[ks]; ok {
+		s.env.Report("C16", "keystream-reuse", "wire frames #%d and #%d of this session (the later one written by side %d, %d bytes of it on the wire) satisfy c1 xor c2 == p1 xor p2 over at least 32 bytes: they were sealed with the same key and nonce, an observer who knows one plaintext reads the other", prev, s.wireN, w, len(ct))
+	}
+	s.wire[ks] = s.wireN
 }
 
 // nonceWatch: every sealed frame under one key must be distinct, and no two frames may be
@@ -1116,6 +1209,25 @@ func (s *sim) Next(rng *simcore.RNG) simcore.Op {
 	if w[0]+w[1]+w[2]+w[3]+w[4]+w[5] == 0 {
 		return nil
 	}
+	if s.cfg.Bool("wfail") && !s.evilTopo && len(idleW) > 0 && s.wfails < 4 && rng.Bool(0.06) {
+		sdi := idleW[rng.Intn(len(idleW))]
+		if !s.sd[sdi].end.failArmed {
+			k := rng.Range(32, frameSize-8)
+			switch rng.Intn(10) {
+			case 0:
+				k = 0
+			case 1:
+				k = rng.Range(1, 31)
+			case 2:
+				k = frameSize - 8
+			}
+			skip := 0
+			if rng.Bool(0.4) {
+				skip = rng.Range(1, 3)
+			}
+			return simcore.Op{"a": "wfail", "s": sdi, "k": k, "skip": skip}
+		}
+	}
 	switch rng.Weighted(w) {
 	case 0:
 		sdi := idleW[rng.Intn(len(idleW))]
@@ -1350,17 +1462,38 @@ func (s *sim) apply1(op simcore.Op) bool {
 			so.chunks = append(so.chunks, chunkSizes(len(data))...)
 		}
 		sd.wIssued += len(data)
+		rest := data
+		for _, c := range chunkSizes(len(data)) {
+			f := make([]byte, lenField+c)
+			binary.LittleEndian.PutUint32(f, uint32(c))
+			copy(f[lenField:], rest[:c])
+			sd.wq = append(sd.wq, f)
+			rest = rest[c:]
+		}
 		sd.w.busy = true
+		sd.injected = false
 		sc := sd.sc
 		sd.w.cmd <- func() {
 			n, err := sc.Write(data)
 			s.mu.Lock()
 			sd.wDone += n
-			if err != nil || n != len(data) {
+			sd.wq = nil // frames of this call that were not sealed will never be
+			if (err != nil || n != len(data)) && !sd.injected {
 				sd.wErr = true
+			}
+			if sd.injected {
+				s.env.Count("probe.write_returned_error_then_writes_on")
 			}
 			s.mu.Unlock()
 		}
+		return true
+	case "wfail":
+		sd := s.sd[op.Int("s")&1]
+		if s.evilTopo || s.upgrade || s.hsRunning() || !s.hsOK || sd.closedH || sd.wErr || sd.end.failArmed || op.Int("k") < 0 || op.Int("skip") < 0 {
+			return false
+		}
+		sd.end.failArmed, sd.end.failK, sd.end.failSkip = true, op.Int("k"), op.Int("skip")
+		s.wfails++
 		return true
 	case "r":
 		sd := s.sd[op.Int("s")&1]
@@ -1833,6 +1966,9 @@ func (s *sim) judgeReads(i int) {
 	for _, res := range sd.results {
 		if res.panicv != "" {
 			e.Fail("C16", "read-panic", "Read on side %d panicked: %s", i, res.panicv)
+		}
+		if st.ignore {
+			continue
 		}
 		nf := s.framesConsumed(i, res.rTotal)
 		modelErr := false
